@@ -75,6 +75,12 @@ class EngineWorld:
         its = list(items.items) if isinstance(items, SBytes) else list(items)
         return SBytes([V.int_to_byte(x) if isinstance(x, (SInt, SBool)) else x for x in its], False)
 
+    def inttext(self, v, style="0x%X"):
+        """the text of integer v in the given spelling ("0x%X" or "%d")"""
+        if isinstance(v, int):
+            return style % v if v >= 0 or style == "%d" else "0x-%X" % -v
+        return Opaque("inttext", (v, style))
+
     def memoryview(self, b):
         mv = SBytes(b.items, False)
         mv.kind = "memoryview"
@@ -309,6 +315,9 @@ class NativeWorld:
 
     def bytes_of(self, items):
         return bytes(items)
+
+    def inttext(self, v, style="0x%X"):
+        return style % v if v >= 0 or style == "%d" else "0x-%X" % -v
 
     def memoryview(self, b):
         return memoryview(b)
